@@ -39,6 +39,12 @@ def run_one(name, props):
                                "detail": ap.stderr.strip()[:200]}
         json.dump(meta, open(os.path.join(d, "meta.json"), "w"), indent=1)
         return meta["detected_by"]
+    # the evidence files belong to runs on the unchanged tree: what a run against a seeded change
+    # writes there is put back afterwards
+    saved_ev = {}
+    for prop in props:
+        ev = os.path.join(HERE, "evidence", "%s.json" % prop)
+        saved_ev[ev] = open(ev).read() if os.path.exists(ev) else None
     try:
         for prop in props:
             r = sh("timeout 3600 ./check %s --tier quick" % prop, cwd=HERE)
@@ -56,6 +62,9 @@ def run_one(name, props):
     finally:
         sh("git -C %s checkout -- ." % REPO)
         os.remove(tmp)
+        for ev, text in saved_ev.items():
+            if text is not None:
+                open(ev, "w").write(text)
     if "--dry" in sys.argv:      # e.g. a run under another VERIF_SEED: report only
         return results
     meta["detected_by"] = results
